@@ -479,16 +479,21 @@ func (vm *VM) Step(sc *SimConfig) (string, error) {
 		vm.wait_proc = vm.wait_proc - 1
 	}
 
+	// The processors finish in any order: their reports are collected and then listed by processor
+	// number, so that the text of a step does not depend on the scheduling of the workers
+	proc_results := make([]string, len(vm.Processors))
 	for {
 		i := <-vm.recv_chan
-		proc_result := <-vm.result_chans[i]
-		if proc_result != "" {
-			result += "\tProc: " + strconv.Itoa(i) + "\n"
-			result += proc_result
-		}
+		proc_results[i] = <-vm.result_chans[i]
 		vm.wait_proc = vm.wait_proc + 1
 		if vm.wait_proc == len(vm.Processors) {
 			break
+		}
+	}
+	for i, proc_result := range proc_results {
+		if proc_result != "" {
+			result += "\tProc: " + strconv.Itoa(i) + "\n"
+			result += proc_result
 		}
 	}
 
